@@ -835,7 +835,7 @@ class Actor(object):
 
         if len(srcFields) != len(dstFields):
             msg = ("ResolveError: Unequal number of source = {0} and "
-                   "destination = {2} fields".format(srcFields, dstFields))
+                   "destination = {1} fields".format(srcFields, dstFields))
             raise excepting.ResolveError(msg,
                                          self.name,
                                          '',
@@ -891,7 +891,7 @@ class Actor(object):
 
         if len(srcFields) != len(dstFields):
             msg = ("ResolveError: Unequal number of fields, source = {0} and"
-                  " destination={1)".format(srcFields, dstFields))
+                  " destination={1}".format(srcFields, dstFields))
             raise excepting.ResolveError(msg,
                                          self.name,
                                          '',
@@ -1332,7 +1332,7 @@ class Rearer(Actor):
             msg = ("ResolveError: Invalid schedule '{0}' for clone"
                   "of '{1}'".format(ScheduleNames.get(schedule, schedule),
                                   original.name))
-            raise excepting.ResolveError(msg=msg,
+            raise excepting.ResolveError(message=msg,
                                          name=self.name,
                                          value=schedule,
                                          human=self._act.human,
